@@ -191,6 +191,13 @@ pub struct Node<C: Fc> {
 }
 
 #[derive(Clone, Debug)]
+pub struct StmtRec {
+    pub si: usize,
+    pub operands: Vec<usize>,
+    pub produced: Vec<usize>,
+}
+
+#[derive(Clone, Debug)]
 pub struct Assertion {
     pub kind: &'static str,
     pub stmt: usize,
@@ -208,12 +215,32 @@ pub struct Built<C: Fc> {
     /// (expr a, expr b) for every connect issued, with the node kinds
     pub connects: Vec<(NK, NK)>,
     cur_deps: Vec<usize>,
+    /// per executed statement: (statement index, operand nodes, produced nodes)
+    pub recs: Vec<StmtRec>,
     /// statements skipped because they fall into a listed known-finding class
     pub excluded: Vec<&'static str>,
     has_ext_decomp: bool,
 }
 
 impl<C: Fc> Built<C> {
+    /// An empty value (used to rebuild a `Built` around an already consumed builder).
+    pub fn empty() -> Self {
+        Built {
+            builder: CircuitBuilder::new(),
+            nodes: vec![],
+            publics: vec![],
+            privates: vec![],
+            asserts: vec![],
+            div_zero: false,
+            features: BTreeSet::new(),
+            connects: vec![],
+            cur_deps: vec![],
+            recs: vec![],
+            excluded: vec![],
+            has_ext_decomp: false,
+        }
+    }
+
     pub fn src_sat(&self) -> bool {
         !self.div_zero && self.asserts.iter().all(|a| a.holds)
     }
@@ -336,6 +363,7 @@ pub fn interpret<C: Fc>(prog: &Prog, excl: Excl) -> Built<C> {
         features: BTreeSet::new(),
         connects: vec![],
         cur_deps: vec![],
+        recs: vec![],
         excluded: vec![],
         has_ext_decomp: prog.stmts.iter().any(|s| matches!(s, Stmt::ExtDecomp(_))),
     };
@@ -350,7 +378,16 @@ pub fn interpret<C: Fc>(prog: &Prog, excl: Excl) -> Built<C> {
         deps: vec![],
     });
     for (si, st) in prog.stmts.iter().enumerate() {
+        let (n0, a0) = (out.nodes.len(), out.asserts.len());
         step::<C>(&mut out, si, st, excl);
+        if out.nodes.len() > n0 || out.asserts.len() > a0 {
+            let rec = StmtRec {
+                si,
+                operands: out.cur_deps.clone(),
+                produced: (n0..out.nodes.len()).collect(),
+            };
+            out.recs.push(rec);
+        }
     }
     out
 }
@@ -369,8 +406,8 @@ fn push<C: Fc>(o: &mut Built<C>, expr: ExprId, val: C::EF, kind: NK, stmt: usize
 
 fn step<C: Fc>(o: &mut Built<C>, si: usize, st: &Stmt, excl: Excl) {
     let n = o.nodes.len();
-    let ix = |i: &u16| pick(*i, n);
-    o.cur_deps = stmt_operands(st).iter().map(|i| pick(*i, n)).collect();
+    let ix = |i: &u16| node_index(*i, n);
+    o.cur_deps = stmt_operands(st).iter().map(|i| node_index(*i, n)).collect();
     match st {
         Stmt::Const(v) => {
             let val = v.resolve::<C>();
@@ -652,7 +689,7 @@ fn step<C: Fc>(o: &mut Built<C>, si: usize, st: &Stmt, excl: Excl) {
             let mut cs = vec![];
             o.cur_deps.clear();
             for d in 0..C::D {
-                let k = cand[pick(*idx.get(d).unwrap_or(&0), cand.len())];
+                let k = cand[pick(idx.get(d).copied().unwrap_or(0).min(REL_BASE - 1), cand.len())];
                 o.cur_deps.push(k);
                 exprs.push(o.nodes[k].expr);
                 cs.push(C::coeffs(&o.nodes[k].val)[0]);
@@ -717,6 +754,21 @@ fn step<C: Fc>(o: &mut Built<C>, si: usize, st: &Stmt, excl: Excl) {
     }
 }
 
+/// Indices `>= REL_BASE` address nodes relative to the end (`REL_BASE + k` = k-th most recent
+/// node), so that generated multi-statement patterns can refer to the nodes they just
+/// created; smaller indices are scaled monotonically over all existing nodes.
+pub const REL_BASE: u16 = 0xFF00;
+pub fn rel(k: u16) -> u16 {
+    REL_BASE + k
+}
+pub fn node_index(i: u16, n: usize) -> usize {
+    if i >= REL_BASE {
+        n.saturating_sub(1 + (i - REL_BASE) as usize)
+    } else {
+        ((i as usize) * n) / (REL_BASE as usize)
+    }
+}
+
 /// Raw operand indices of a statement (before `pick`).
 pub fn stmt_operands(st: &Stmt) -> Vec<u16> {
     match st {
@@ -752,10 +804,14 @@ pub struct GenOpts {
     pub free_connect: bool,
     pub allow_div: bool,
     pub allow_hints: bool,
+    /// ExtDecomp / ExtRecomp statements (need allow_hints too)
+    pub allow_ext: bool,
     pub allow_horner: bool,
     pub allow_private: bool,
     /// weight of free-form `Horner` statements (arbitrary accumulators)
     pub free_horner_weight: u32,
+    /// out of 20: how often a chunk is an optimiser-oriented multi-statement pattern
+    pub pattern_weight: u32,
     pub fields: Vec<u8>,
 }
 
@@ -768,9 +824,11 @@ impl Default for GenOpts {
             free_connect: true,
             allow_div: true,
             allow_hints: true,
+            allow_ext: true,
             allow_horner: true,
             allow_private: true,
             free_horner_weight: 6,
+            pattern_weight: 3,
             fields: vec![0, 1, 3, 4, 6],
         }
     }
@@ -779,10 +837,96 @@ impl Default for GenOpts {
 /// Index biased to recent nodes (high values) half of the time.
 fn idx() -> impl Strategy<Value = u16> {
     prop_oneof![
-        2 => any::<u16>(),
-        2 => (0xC000u16..=0xFFFF),
-        1 => (0xF000u16..=0xFFFF),
+        3 => (0u16..REL_BASE),
+        2 => (0xC000u16..REL_BASE),
+        2 => (0u16..6).prop_map(rel),
     ]
+}
+
+/// Multi-statement patterns aimed at the optimiser: the same op applied to aliased copies of
+/// its operands (ALU de-duplication) and a product consumed by a single add while being
+/// tied to something else (mul+add fusion).
+pub fn pattern_strategy(o: &GenOpts) -> BoxedStrategy<Vec<Stmt>> {
+    let via = || {
+        prop_oneof![
+            Just(CopyVia::Public),
+            Just(CopyVia::Private),
+            Just(CopyVia::Const)
+        ]
+    };
+    let z = Val::zero;
+    let _ = o;
+    // --- dedup: op(a, b) and op(a, copy(b)) [result optionally aliased to an input]
+    let dedup = (val_strategy(), val_strategy(), via(), 0u8..5, proptest::option::of(via()), any::<bool>())
+        .prop_map(move |(va, vb, v, op, alias, swap)| {
+            let mut s = vec![Stmt::Public(va), Stmt::Public(vb), Stmt::Copy(rel(0), v, z())];
+            // nodes: a = rel(2), b = rel(1), c = rel(0)
+            let mk = |op: u8, x: u16, y: u16| match op {
+                0 => Stmt::Mul(x, y),
+                1 => Stmt::Add(x, y),
+                2 => Stmt::Sub(x, y),
+                3 => Stmt::MulAdd(x, y, x),
+                _ => Stmt::Horner(ExprIdx::ZERO, x, y, x),
+            };
+            s.push(mk(op, rel(2), rel(1))); // r1 ; now a=rel(3) b=rel(2) c=rel(1)
+            if swap && op < 2 {
+                s.push(mk(op, rel(1), rel(3)));
+            } else {
+                s.push(mk(op, rel(3), rel(1)));
+            }
+            if let Some(av) = alias {
+                s.push(Stmt::Copy(rel(0), av, z()));
+            }
+            s.push(Stmt::Add(rel(0), rel(1)));
+            s
+        });
+    // --- fusion: m = a*b; [m tied to something]; r = m + c
+    let fusion = (val_strategy(), val_strategy(), val_strategy(), 0u8..6, via(), any::<bool>())
+        .prop_map(move |(va, vb, vc, tie, v, flip)| {
+            let mut s = vec![Stmt::Public(va), Stmt::Private(vb), Stmt::Public(vc), Stmt::Mul(rel(2), rel(1))];
+            // a=rel(3) b=rel(2) c=rel(1) m=rel(0)
+            let mut m = 0u16; // distance of m from the end
+            match tie {
+                0 => {}
+                1 => {
+                    s.push(Stmt::Copy(rel(0), v, z()));
+                    m += 1;
+                }
+                2 => {
+                    s.push(Stmt::Bits(rel(0), 64));
+                    // unknown number of bit nodes: refer to m through a copy made first
+                }
+                3 => {
+                    s.push(Stmt::AssertBool(rel(0)));
+                }
+                4 => {
+                    // another ALU result aliased to m
+                    s.push(Stmt::Add(rel(3), rel(2)));
+                    s.push(Stmt::Connect(rel(0), rel(1)));
+                    m += 1;
+                }
+                _ => {
+                    s.push(Stmt::Horner(rel(0), rel(3), rel(1), rel(2)));
+                    m += 1;
+                }
+            }
+            if tie != 2 {
+                let c = m + 1;
+                if flip {
+                    s.push(Stmt::Add(rel(c), rel(m)));
+                } else {
+                    s.push(Stmt::Add(rel(m), rel(c)));
+                }
+            }
+            s
+        });
+    prop_oneof![dedup, fusion].boxed()
+}
+
+struct ExprIdx;
+impl ExprIdx {
+    /// scaled index 0 always addresses node 0, the zero constant
+    const ZERO: u16 = 0;
 }
 
 pub fn stmt_strategy(o: &GenOpts) -> BoxedStrategy<Stmt> {
@@ -875,6 +1019,8 @@ pub fn stmt_strategy(o: &GenOpts) -> BoxedStrategy<Stmt> {
                 .prop_map(|(i, n)| Stmt::Bits(i, n))
                 .boxed(),
         ));
+    }
+    if o.allow_hints && o.allow_ext {
         alts.push((3, idx().prop_map(Stmt::ExtDecomp).boxed()));
         alts.push((
             3,
@@ -888,15 +1034,30 @@ pub fn stmt_strategy(o: &GenOpts) -> BoxedStrategy<Stmt> {
 
 pub fn prog_strategy(o: GenOpts) -> impl Strategy<Value = Prog> {
     let fields = o.fields.clone();
+    let single = stmt_strategy(&o).prop_map(|s| vec![s]);
+    let chunk = if o.pattern_weight > 0 {
+        prop_oneof![
+            (20 - o.pattern_weight.min(19)) => single,
+            o.pattern_weight.min(19) => pattern_strategy(&o),
+        ]
+        .boxed()
+    } else {
+        single.boxed()
+    };
+    let max_len = o.max_len;
     (
         proptest::sample::select(fields),
         any::<bool>(),
-        proptest::collection::vec(stmt_strategy(&o), o.min_len..=o.max_len),
+        proptest::collection::vec(chunk, o.min_len..=o.max_len),
     )
-        .prop_map(|(field, recompose_npo, stmts)| Prog {
-            field,
-            recompose_npo,
-            stmts,
+        .prop_map(move |(field, recompose_npo, chunks)| {
+            let mut stmts: Vec<Stmt> = chunks.into_iter().flatten().collect();
+            stmts.truncate(max_len.max(8) * 2);
+            Prog {
+                field,
+                recompose_npo,
+                stmts,
+            }
         })
 }
 
@@ -1001,4 +1162,169 @@ pub fn horner_shape_ok<F: p3_field::Field>(circuit: &p3_circuit::Circuit<F>) -> 
         }
     }
     true
+}
+
+/// Evaluate the *source* relations of an interpreted program on arbitrary node values
+/// `v(node index)` (used by C03: values are read from a candidate witness assignment).
+/// Returns the first violated relation.
+pub fn src_relations_hold<C: Fc>(
+    prog: &Prog,
+    built: &Built<C>,
+    v: &dyn Fn(usize) -> C::EF,
+) -> Result<(), String> {
+    let zero = C::EF::ZERO;
+    let one = C::EF::ONE;
+    // node 0 is the zero constant
+    if v(0) != zero {
+        return Err("const ZERO".into());
+    }
+    for rec in &built.recs {
+        let st = &prog.stmts[rec.si];
+        let o = &rec.operands;
+        let p = &rec.produced;
+        let bad = |what: &str| Err(format!("{what}@stmt{}", rec.si));
+        match st {
+            Stmt::Const(_) => {
+                if v(p[0]) != built.nodes[p[0]].val {
+                    return bad("const");
+                }
+            }
+            Stmt::Public(_) | Stmt::Private(_) => {}
+            Stmt::Add(..) => {
+                if v(p[0]) != v(o[0]) + v(o[1]) {
+                    return bad("add");
+                }
+            }
+            Stmt::Sub(..) => {
+                if v(p[0]) != v(o[0]) - v(o[1]) {
+                    return bad("sub");
+                }
+            }
+            Stmt::Mul(..) => {
+                if v(p[0]) != v(o[0]) * v(o[1]) {
+                    return bad("mul");
+                }
+            }
+            Stmt::Div(..) => {
+                // quotient * divisor = dividend (the statement's meaning for non-zero divisors)
+                if v(o[1]) != zero && v(p[0]) * v(o[1]) != v(o[0]) {
+                    return bad("div");
+                }
+            }
+            Stmt::MulAdd(..) => {
+                if v(p[0]) != v(o[0]) * v(o[1]) + v(o[2]) {
+                    return bad("mul_add");
+                }
+            }
+            Stmt::Horner(..) => {
+                if v(p[0]) != v(o[0]) * v(o[1]) + v(o[2]) - v(o[3]) {
+                    return bad("horner");
+                }
+            }
+            Stmt::HornerChain(..) => {
+                let al = v(o[0]);
+                let mut acc = zero;
+                for t in o[1..].chunks(2) {
+                    acc = acc * al + v(t[0]) - v(t[1]);
+                }
+                if v(p[0]) != acc {
+                    return bad("horner-chain");
+                }
+                if v(p[1]) != v(p[0]) + al {
+                    return bad("horner-chain-add");
+                }
+            }
+            Stmt::AssertBool(_) => {
+                if !(v(o[0]) == zero || v(o[0]) == one) {
+                    return bad("assert_bool");
+                }
+            }
+            Stmt::Select(..) => {
+                if v(p[0]) != v(o[2]) + v(o[0]) * (v(o[1]) - v(o[2])) {
+                    return bad("select");
+                }
+            }
+            Stmt::AssertZero(_) => {
+                if v(o[0]) != zero {
+                    return bad("assert_zero");
+                }
+            }
+            Stmt::Connect(..) => {
+                if v(o[0]) != v(o[1]) {
+                    return bad("connect");
+                }
+            }
+            Stmt::Copy(_, via, _) => {
+                if *via == CopyVia::Const && v(p[0]) != built.nodes[p[0]].val {
+                    return bad("copy-const");
+                }
+                // an excluded copy leaves the new input free (no operand recorded)
+                if let Some(&src) = o.first() {
+                    if v(p[0]) != v(src) {
+                        return bad("copy-connect");
+                    }
+                }
+            }
+            Stmt::Bits(..) => {
+                let fb = <C::BF as Field>::bits();
+                let mut limbs = vec![C::EF::ZERO; C::D];
+                for (k, &b) in p.iter().enumerate() {
+                    let bv = v(b);
+                    if !(bv == zero || bv == one) {
+                        return bad("bits-bool");
+                    }
+                    let pow = C::BF::TWO.exp_u64((k % fb) as u64);
+                    limbs[k / fb] += bv * pow;
+                }
+                let mut recon = zero;
+                for (l, limb) in limbs.iter().enumerate() {
+                    let mut e = vec![0u64; C::D];
+                    e[l] = 1;
+                    recon += *limb * C::ef(&e);
+                }
+                if recon != v(o[0]) {
+                    return bad("bits-recompose");
+                }
+            }
+            Stmt::ExtDecomp(_) | Stmt::ExtRecomp(_) => {
+                // x = sum coeff_i * e_i (coefficient nodes are base-field values by contract;
+                // their canonicity is the subject of C12, not of this relation)
+                let (x, cs): (usize, Vec<usize>) = match st {
+                    Stmt::ExtDecomp(_) => (o[0], p.clone()),
+                    _ => (p[0], o.clone()),
+                };
+                let mut recon = zero;
+                for (l, &c) in cs.iter().enumerate() {
+                    let mut e = vec![0u64; C::D];
+                    e[l] = 1;
+                    recon += C::base(C::coeffs(&v(c))[0]) * C::ef(&e);
+                }
+                if recon != v(x) {
+                    return bad("ext-recompose");
+                }
+            }
+            Stmt::ExpPow2(_, k) => {
+                let mut x = v(o[0]);
+                for _ in 0..(*k % 6) {
+                    x = x * x;
+                }
+                if v(p[0]) != x {
+                    return bad("exp_pow2");
+                }
+            }
+            Stmt::MulMany(_) => {
+                let x = o.iter().fold(one, |acc, &i| acc * v(i));
+                if v(p[0]) != x {
+                    return bad("mul_many");
+                }
+            }
+            Stmt::InnerProduct(_) => {
+                let x = o.chunks(2).fold(zero, |acc, t| acc + v(t[0]) * v(t[1]));
+                if v(p[0]) != x {
+                    return bad("inner_product");
+                }
+            }
+        }
+    }
+    Ok(())
 }
